@@ -42,6 +42,7 @@ func TestC01(t *testing.T) {
 	scs = append(scs, s1, s2, s3)
 	for _, o := range scs {
 		o.mons = mons
+		setupRun = run
 		sc := mkScenario(t, o)
 		explore(t, run, sc, 0)
 		if run.HasUnknownViolation() {
